@@ -35,7 +35,6 @@ Names == <<"ph", "tbar", "bbar", "cbar", "sbar", "ubar", "dbar", "g",
 Idx(pid) == CHOOSE j \in 1..N : Pids[j] = pid
 
 (* PDG numbering: d=1 u=2 s=3 c=4 b=5 t=6 *)
-QuarkLetter == <<"d", "u", "s", "c", "b", "t">>
 Activation == <<2, 1, 3, 4, 5, 6>>      \* u d s c b t: order in which T_(k^2-1) absorb quarks
 UpLike == <<2, 4, 6>>                   \* u c t
 DownLike == <<1, 3, 5>>                 \* d s b
@@ -244,11 +243,12 @@ C31_Covers(cells) ==
      \cup {<<nf, 0, l[1], l[2]>> : nf \in NfRange, l \in SectorLabels(FALSE)}
 
 (* ---- C32 ---------------------------------------------------------------------------- *)
-(* members: sequence of <<target, input, value>>; T[out][in] the flavour tensor.         *)
-(* Rout . T = E . Rin, E the evolution-basis operator over (basis nfout) x (basis nfin); *)
-(* Rout is invertible (C31), so this fixes T = Rout^-1 E Rin: restricted to the active   *)
-(* flavours, heavy quarks through q+ and q-.                                             *)
-(* ms: SET of <<target, input, value>> with at most one value per (target, input) *)
+(* ms: SET of members <<target, input, value>>, at most one value per (target, input);    *)
+(* T[out][in] the flavour tensor.  Rout . T = E . Rin, with E the evolution-basis        *)
+(* operator over (basis of nfout flavours) x (basis of nfin flavours) and Rout, Rin the  *)
+(* flavour contents of those bases.  Rout is invertible (C31), so this fixes             *)
+(* T = Rout^-1 E Rin: the change of basis restricted to the active flavours, the heavy   *)
+(* quarks entering through q+ and q-.                                                    *)
 KnownLabels == {AllLabels[k] : k \in 1..Len(AllLabels)}
 PairSeq == [k \in 1..(Len(AllLabels) * Len(AllLabels)) |->
               <<AllLabels[((k - 1) \div Len(AllLabels)) + 1], AllLabels[((k - 1) % Len(AllLabels)) + 1]>>]
@@ -324,7 +324,7 @@ C32_Range(got, labs) ==
   /\ got[2] = MaxOf({3} \cup {LabelNf(p[1]) : p \in labs})
 
 (* ---- C33 ---------------------------------------------------------------------------- *)
-(* M: sequence of <<new, old, coefficient>>, new in the basis of nf flavours, old in the *)
+(* M: SET of <<new, old, coefficient>>, new in the basis of nf flavours, old in the      *)
 (* matching basis = basis of nf-1 flavours (it contains h+ and h- of the new quark)      *)
 CoefOf(M, x, y) == MemberValue(M, x, y)
 Content(M, x, nfold, qed) ==
